@@ -295,3 +295,48 @@ func dumpValue(sb *strings.Builder, v reflect.Value, withPos bool, depth int) {
 		fmt.Fprintf(sb, "%v", v.Interface())
 	}
 }
+
+type nodeField struct {
+	name  string
+	many  bool
+	one   ast.Node
+	elems []ast.Node
+}
+
+// nodeFields lists the exported node-typed fields of n in declaration order (single: possibly nil; slices: elements).
+func nodeFields(n ast.Node) []nodeField {
+	var out []nodeField
+	v := reflect.ValueOf(n)
+	if v.Kind() == reflect.Ptr {
+		v = v.Elem()
+	}
+	if v.Kind() != reflect.Struct {
+		return nil
+	}
+	t := v.Type()
+	for i := 0; i < t.NumField(); i++ {
+		f := t.Field(i)
+		if !f.IsExported() {
+			continue
+		}
+		fv := v.Field(i)
+		switch {
+		case f.Type.Implements(nodeIface):
+			var c ast.Node
+			if !((fv.Kind() == reflect.Interface || fv.Kind() == reflect.Ptr) && fv.IsNil()) {
+				c = fv.Interface().(ast.Node)
+				if isNilNode(c) {
+					c = nil
+				}
+			}
+			out = append(out, nodeField{name: f.Name, one: c})
+		case f.Type.Kind() == reflect.Slice && f.Type.Elem().Implements(nodeIface):
+			nf := nodeField{name: f.Name, many: true}
+			for j := 0; j < fv.Len(); j++ {
+				nf.elems = append(nf.elems, fv.Index(j).Interface().(ast.Node))
+			}
+			out = append(out, nf)
+		}
+	}
+	return out
+}
